@@ -38,7 +38,7 @@ func TestVerifDbgC10(t *testing.T) {
 			}
 		}
 	}
-	fmt.Printf("moves: %+v\n", out.Moves)
+	fmt.Printf("moves: %+v\nrecovery: %+v hosts %v\n", out.Moves, out.Recovery, out.Hosts)
 }
 
 // debugging aid: VERIF_DBG_MGR=<replay file> prints every step of the state machine with its coordination writes
